@@ -90,11 +90,12 @@ class Explorer(object):
         self.events = None
         self.counter = 0
         self.unknown_on_path = False
+        self.prefix = ''
 
     # -- naming ---------------------------------------------------------
     def fresh_name(self, hint):
         self.counter += 1
-        return '%s!%d' % (hint, self.counter)
+        return '%s%s!%d' % (self.prefix + '/' if self.prefix else '', hint, self.counter)
 
     # -- solver ---------------------------------------------------------
     def assume_base(self, term):
